@@ -890,6 +890,9 @@ func (c *CharClassMatcher) parse() {
 	// content of char class is necessarily valid, so escapes are correct
 	r := strings.NewReader(raw)
 	var chars []rune
+	// escaped[i] reports whether chars[i] was written as an escape sequence: an
+	// escaped dash (\x2d, \055, \u002d) is a plain character, not the range operator
+	var escaped []bool
 	var buf bytes.Buffer
 outer:
 	for {
@@ -905,6 +908,7 @@ outer:
 			switch rn {
 			case ']':
 				chars = append(chars, rn)
+				escaped = append(escaped, true)
 				continue
 
 			case 'p':
@@ -944,9 +948,11 @@ outer:
 			}
 			rn, _, _, _ = strconv.UnquoteChar("\\"+buf.String(), 0)
 			chars = append(chars, rn)
+			escaped = append(escaped, true)
 
 		default:
 			chars = append(chars, rn)
+			escaped = append(escaped, false)
 		}
 	}
 
@@ -960,7 +966,7 @@ outer:
 			continue
 		}
 
-		if r == '-' && !wasRange && len(c.Chars) > 0 && i < len(chars)-1 {
+		if r == '-' && !escaped[i] && !wasRange && len(c.Chars) > 0 && i < len(chars)-1 {
 			inRange = true
 			wasRange = false
 			// start of range is the last Char added
